@@ -19,7 +19,7 @@ RULE = (
     "line in order and absorbs no marker word into a name, type or default. Non-trivial = header of >=2 lines and "
     "(footer present or indent > 0)."
 )
-TIERS = {"quick": {"shards": 8, "n": 500, "budget_s": 200}, "thorough": {"shards": 16, "n": 25000, "budget_s": 2700}}
+TIERS = {"quick": {"shards": 8, "n": 2500, "budget_s": 200}, "thorough": {"shards": 16, "n": 40000, "budget_s": 2700}}
 FLOOR = {"quick": 300, "thorough": 20000}
 REQUIRED_LABELS = {"quick": ["style:rest", "style:google", "style:numpydoc", "footer", "indent=8", "indent=0"], "thorough": []}
 ASSUMPTIONS = ["the splitter's `current` argument is never indented in real use (its only caller passes the freshly emitted section)"]
